@@ -166,7 +166,7 @@ PROPS["C10"] = dict(
     parts=[dict(bin="e1_bulk")],
     rule="copy: per (word type, width, backend, from) all (to,len) pairs - ALL (from,to,len) triples over vectors of ceil(3 BITS/w)+2 aperiodic elements for u8 (thorough: also u16), boundary grid (from,to in 0..=2 BITS/w+1; len in {0,1,2,BITS/w+-1,2 BITS/w+-1,n,n+1}) for wider words; backends Vec, Box, &mut [W] with a dirty spare word; branch-hit counters for the six code paths of copy are reported; apply_in_place: every (W,width) x len in {0,1,k-1,k,k+1,2k+1} x backends (new, new_unaligned, dirty spare word, Box) with a logging callback, a cumulative callback through the unchecked variant, and a too-wide result; try_chunks_mut: all (width, len <= 3k, chunk size <= len+1); get_unaligned: every word type x EVERY width 0..=BITS x 4 lengths x every index, with and without the padding word; thorough: par_* on vectors of 2-2.5 x RAYON_MIN_LEN words",
     alphabet="word types u8,u16,u32,u64,usize,u128; widths: all for u8 (u16 in thorough), boundary sets otherwise",
-    bound={"quick": "as in rule", "thorough": "u16 exhaustive copy triples, all u16 widths for apply_in_place, long parallel vectors"},
+    bound={"quick": "as in rule", "thorough": "ALL copy triples for every width of u16, u32 and usize, 9 widths of u64 and 10 of u128; every width of every word type for apply_in_place; every width of u8/u16/u32/usize for try_chunks_mut"},
     oracle="element-by-element definitions on Vec<W>; raw backend words outside the written element range unchanged; callback argument log equals the contents in index order; try_chunks_mut returns Err exactly when documented and views address the corresponding elements; get_unaligned equals get whenever it returns and panics for inadmissible widths",
     assumptions=STRICT,
 )
@@ -260,7 +260,7 @@ PROPS["C11"] = dict(
     level="exploration",
     engine="E1",
     parts=[dict(bin="e1_space", timeout_s={"quick": 900, "thorough": 7200})],
-    rule="rank/select: EVERY len in 0..=L and every power of two +-1 up to 2^26 x densities {ones, zeros, one per 512, alternating}; bit vectors and bit-field vectors built or grown only: every len 0..=300 x 9 widths x {new, new_unaligned, push, resize} and collect / extend from iterators with exact, too-large and unknown size hints (filter, take_while, flat_map, chain); Elias-Fano (plain build): ALL (n,u) with n in 0..=64, u in 0..=U plus the split probes n 2^k +-1 and 2^63, MAX; functions/filters: arithmetic num_vertices x num_shards of every ShardEdge for EVERY n <= N then a 1% geometric grid to 10^12 with the largest admissible shard floor(1.01 n / shards), and real builds of functions and filters at regime boundaries for 4 value widths; non-trivial = non-empty structure",
+    rule="rank/select: EVERY len in 0..=L and every power of two +-1 up to 2^26 x densities {ones, zeros, one per 512, alternating}; bit vectors and bit-field vectors built or grown only: every len 0..=300 x 9 widths x {new, new_unaligned, push, resize} and collect / extend from iterators with exact, too-large and unknown size hints (filter, take_while, flat_map, chain); Elias-Fano (plain build): ALL (n,u) with n in 0..=64, u in 0..=U plus the split probes n 2^k +-1 and 2^63, MAX; functions/filters: arithmetic num_vertices x num_shards of every ShardEdge for EVERY n <= N then a 1% geometric grid to 10^12 with the largest admissible shard floor(1.01 n / shards), real builds of functions and filters at regime boundaries for 4 value widths, and real builds of functions of EVERY value width (1..=BITS of usize, u16, u8; 7 widths of u32, 6 of u64) on bit-field and boxed backends at 1000 and 100 000 keys; non-trivial = non-empty structure",
     alphabet="additive constants fixed in DESIGN.md section 5 (C11): rank structures and Select9 + 1024 bits; Elias-Fano + 1152 bits; functions 2 segments per shard (MWHC: 3 x 128 cells per shard) + 8 cells; 1.135 applies to the default sharded logic from 100000 keys",
     bound={"quick": "L=5000, U=600, N=60000", "thorough": "L=70000, U=4096, N=10^6"},
     oracle="mem_size(SizeFlags::default()) of the structure minus that of the wrapped structure <= documented fraction of the bit length + constant; closed formulas from the property text",
@@ -287,7 +287,7 @@ PROPS["C12"] = dict(
     engine="E1",
     parts=[dict(bin="e1_oob", timeout_s={"quick": 900, "thorough": 3600}),
            dict(bin="e1_oob", profile="vg", runner="valgrind", tag="valgrind", tiers=["thorough"], timeout_s={"thorough": 7200})],
-    rule="case = (structure instance, safe method, out-of-domain argument): argument alphabet {len, len+1, 2 len, len+63, len+64, 2^32, 2^63, MAX/2+1, MAX-1, MAX} for indices / positions / ranks / start positions / query values, absent keys and arbitrary signatures for functions and filters, iterators polled repeatedly after None, pop on empty, zero chunk sizes, block size 0; structures: 24 bit vectors (empty, singleton, word/block boundaries) with BitVec/AtomicBitVec and 13 rank/select stacks, BitFieldVec<u8|u16|usize|u128> x widths x lengths {0,1,k,k+1,3k+1}, AtomicBitFieldVec, plain slices, 9 Elias-Fano sequences (empty with u = 0 and u > 0, singleton, duplicates, last == u == MAX), 5 rear-coded lists x 3 block sizes, functions over 0/1/2/10/1000 keys for 7 shard/edge x backend combinations and two filters, GF(2) systems, signature store; every case is distinct and counted as non-trivial",
+    rule="case = (structure instance, safe method, out-of-domain argument): argument alphabet {len, len+1, 2 len, len+63, len+64, 2^32, 2^63, MAX/2+1, MAX-1, MAX} for indices / positions / ranks / start positions / query values, absent keys and arbitrary signatures for functions and filters, iterators polled repeatedly after None, pop on empty, zero chunk sizes, block size 0; structures: 24 bit vectors (empty, singleton, word/block boundaries) with BitVec/AtomicBitVec and 13 rank/select stacks, BitFieldVec<u8|u16|usize|u128> x widths x lengths {0,1,k,k+1,3k+1}, AtomicBitFieldVec, plain slices, 9 Elias-Fano sequences (empty with u = 0 and u > 0, singleton, duplicates, last == u == MAX) plus a grid of (n <= 66, 58 universes) x {sequential, concurrent builder} x {last < u, last = u} covering every residue of the upper-bits length modulo 64, 5 rear-coded lists x 3 block sizes, functions over 0/1/2/10/1000 keys for 7 shard/edge x backend combinations and two filters, GF(2) systems, signature store; every case is distinct and counted as non-trivial",
     alphabet="see rule; methods documented as unchecked are excluded, safe methods that forward to unchecked code are the target",
     bound={"quick": "as in rule", "thorough": "same table, run twice: strict profile, and a release build without debug assertions under valgrind memcheck (invalid reads/writes attributed to the announced case)"},
     oracle="each call must return or panic by unwinding; a process abort by the standard library's UB checks (out-of-range get_unchecked), SIGSEGV or any other crash is a memory-safety violation (recorded by the supervisor with the source function that performed the access); where the documentation fixes the result for out-of-domain input (rank beyond len = num_ones, select beyond the count = None, index_of/succ/pred of absent or out-of-universe values) the result is checked too",
